@@ -2,6 +2,7 @@ import CelmaVerif.Lemmas.Spelling
 import CelmaVerif.Lemmas.FileLines
 import CelmaVerif.Lemmas.SourcesSim
 import CelmaVerif.Lemmas.SourcesWords
+import CelmaVerif.Lemmas.SourcesBridge
 import CelmaVerif.Lemmas.SourcesSound
 import CelmaVerif.Lemmas.RulesComplete
 import CelmaVerif.Lemmas.RulesExample
@@ -540,9 +541,13 @@ example : Ex.src.words ++ Ex.argv = [['-', 'n'], ['5'], ['-', 'l'], ['1'], ['2']
   ⟨by decide, C07_sources_are_their_words Ex.cfg Ex.src Ex.argv Ex.hFC Ex.hE
     (Or.inl (Or.inr ⟨['n'], [['7']], rfl, by decide, by decide⟩)) Ex.hA⟩
 
-/-- the line-end condition is necessary: LevelCounter `-v` (optional value) — the words `-v 3` on argv
-    give level 3, the same words as two file lines are refused (the second line is a free value nobody
-    takes); replayed on the real code (corpus/progargs/grammar_quirks.ops) -/
+/-- without a line-end condition the English sentence "same as the words on the command line" is false
+    in general: LevelCounter `-v` (optional value) — the words `-v 3` on argv give level 3, the same
+    words as two file lines are refused (the second line is a free value nobody takes); replayed on
+    the real code (corpus/progargs/grammar_quirks.ops).  This witness lies OUTSIDE `FileSpells` (the
+    line `3` has no `Spells` derivation for a non-multi-value `-v`), so it does not show that
+    `BoundaryOk` cannot be dropped from the theorems; `C07_witness_line_end_in_fragment` does, for the
+    spelling statement. -/
 theorem C07_witness_line_end :
     (match evalArguments { args := [{ key := ⟨some 'v', []⟩, kind := .level, vmode := .optional, card := .unlimited }] }
         (Cfg.initState { args := [{ key := ⟨some 'v', []⟩, kind := .level, vmode := .optional, card := .unlimited }] } [.level 0])
@@ -585,6 +590,192 @@ example : ∃ hf, evalArguments Ex.cfg (Ex.cfg.initState Ex.inits) Ex.src (['p']
     Ex.hF Ex.hE Ex.hA ob (fun u _ d hd => (hargs _ d hd).1) (fun i d v hd hk _ => absurd hk (hargs i d hd).2) Ex.hb Ex.hS
   have d0 : denote Ex.nArg (.int 0) (valsOf 0 (Ex.usF ++ Ex.usE ++ Ex.usA)) = .int 7 := by decide
   exact ⟨hf, e, by rw [← d0]; exact hd 0 Ex.nArg (.int 0) rfl rfl (fun h => by cases h)⟩
+
+/-! ## Third audit follow-up (audit3, section 1a b–d): the bridge to `C02_parse_faithful_sources`, an
+    instance of `C07_same_as_the_words_on_argv`, a line-end witness INSIDE `FileSpells` -/
+
+/-- **Bridge: on the fragment, the derivations an accepted run delivers are the fragment derivations.**
+    `C02_parse_faithful_sources` delivers, for an accepted run, derivations in the wide grammar
+    (`FileSrcSpellsPlus`, `EnvSrcSpellsPlus`, `LineSpells`); the theorems of this file take derivations
+    in the fragment `Spells` (`hF hE hA`).  If file, environment value and argv ARE in the fragment —
+    i.e. such derivations exist, for uses `usF`, `usE`, `usA` — then
+    * the log of every accepted run is `usF ++ usE ++ usA` (the fragment derivations are not an extra
+      assumption about the run: they describe what it logged), and
+    * every triple of wide derivations of the same input — in particular the one
+      `C02_parse_faithful_sources` delivers — spells exactly `usF`, `usE`, `usA`
+      (functionality of the wide grammar, `sources_functional`; `spells_SPE`: a `Spells` line is a line
+      of the wide grammar with end marker `lastAfter`).
+    The direction "wide derivation whose words avoid `--`, `!`, positional values ⇒ a `Spells`
+    derivation exists" is NOT proved: membership in the fragment is shown by exhibiting `hF hE hA`. -/
+theorem C07_fragment_is_what_the_run_spells (cfg : Cfg) (inits : List DVal) (src : Sources) (prog : Word)
+    (ws : List Word) {usF usE usA : List Use}
+    (hF : FileSrcSpells cfg none usF src.file)
+    (hE : EnvSrcSpells cfg (lastAfter none usF) usE src.env)
+    (hA : Spells cfg (lastAfter none (usF ++ usE)) usA ws)
+    {hf : HState} (e : evalArguments cfg (cfg.initState inits) src (prog :: ws) = .ok hf) :
+    hf.uses = usF ++ usE ++ usA ∧
+    ∀ (usF' usE' usA' : List Use) (lF lE lA : Option Nat) (iF iE iA : Bool),
+      FileSrcSpellsPlus cfg none false usF' src.file lF iF → EnvSrcSpellsPlus cfg lF iF usE' src.env lE iE →
+      LineSpells cfg lE iE usA' ws lA iA → usF' = usF ∧ usE' = usE ∧ usA' = usA := by
+  have key : ∀ (usF' usE' usA' : List Use) (lF lE lA : Option Nat) (iF iE iA : Bool),
+      FileSrcSpellsPlus cfg none false usF' src.file lF iF → EnvSrcSpellsPlus cfg lF iF usE' src.env lE iE →
+      LineSpells cfg lE iE usA' ws lA iA → usF' = usF ∧ usE' = usE ∧ usA' = usA := by
+    intro usF' usE' usA' lF lE lA iF iE iA pF pE pA
+    obtain ⟨a, b, c, _⟩ := fragment_is_the_spelling hF hE hA pF pE pA
+    exact ⟨a, b, c⟩
+  refine ⟨?_, key⟩
+  obtain ⟨usF', usE', usA', lF, iF, lE, iE, lA, iA, sF, sE, sA, hu⟩ :=
+    sources_faithful cfg (cfg.initState inits) hf src prog ws e
+  obtain ⟨a, b, c⟩ := key _ _ _ _ _ _ _ _ _ sF sE sA
+  rw [hu, a, b, c]
+  rfl
+
+namespace Ex2
+/-- a second example on the configuration of `Ex`: file `-l 1` / `#` / `2`, environment value `-f`,
+    argv `-n 7` — here the same words on argv (`-l 1 2 -f -n 7`) are accepted as well -/
+def src : Sources := { file := some [['-', 'l', ' ', '1'], ['#'], ['2']], env := some ['-', 'f'] }
+def usF : List Use := [⟨2, ['1'], true⟩, ⟨2, ['2'], false⟩]
+
+theorem hFC : FileSrcSpellsC Ex.cfg (src.envWordList ++ Ex.argv) none usF src.file := by
+  show FileSpellsC Ex.cfg _ none usF [['-', 'l', ' ', '1'], ['#'], ['2']]
+  have s2 : ArgString.splitString ['-', 'l', ' ', '1'] = [['-', 'l'], ['1']] := by decide
+  have s3 : ArgString.splitString ['2'] = [['2']] := by decide
+  have closed : ∀ (u : Use) (next : List Word), u.val ≠ [] → BoundaryOk Ex.cfg [u] next := by
+    intro u next hu
+    refine Or.inr ?_
+    intro u' hu' d _ _
+    simp only [List.getLast?_singleton, Option.some.injEq] at hu'
+    subst hu'
+    exact hu
+  refine FileSpellsC.line (us1 := [⟨2, ['1'], true⟩]) (us2 := [⟨2, ['2'], false⟩])
+    (by unfold SkippedLine; decide) ?_ (closed _ _ (by decide)) (.skip (Or.inr rfl) ?_)
+  · rw [s2]
+    exact .shortVal (d := Ex.lArg) (by decide) rfl (by decide) (Ex.plain '1' (by decide)) (.nil _)
+  · refine FileSpellsC.line (us1 := [⟨2, ['2'], false⟩]) (us2 := []) (by unfold SkippedLine; decide) ?_
+      (closed _ _ (by decide)) (.nil _)
+    rw [s3]
+    exact .free (d := Ex.lArg) rfl rfl (Ex.plain '2' (by decide)) (.nil _)
+
+theorem hE : EnvSrcSpells Ex.cfg (lastAfter none usF) Ex.usE src.env := by
+  show Spells Ex.cfg (some 2) Ex.usE (ArgString.splitString ['-', 'f'])
+  have s1 : ArgString.splitString ['-', 'f'] = [['-', 'f']] := by decide
+  rw [s1]
+  exact .shortFlag (d := Ex.fArg) (by decide) rfl rfl (.nil _)
+
+theorem hEb : BoundaryOk Ex.cfg Ex.usE Ex.argv := Or.inl (Or.inr ⟨['n'], [['7']], rfl, by decide, by decide⟩)
+
+theorem hA : Spells Ex.cfg (lastAfter none (usF ++ Ex.usE)) Ex.usA Ex.argv :=
+  .shortVal (d := Ex.nArg) (by decide) rfl (by decide) (Ex.plain '7' (by decide)) (.nil _)
+
+theorem words : src.words ++ Ex.argv = [['-', 'l'], ['1'], ['2'], ['-', 'f'], ['-', 'n'], ['7']] := by decide
+
+/-- the same words on argv are accepted -/
+theorem onArgv : ∃ hArgv, evalArguments Ex.cfg (Ex.cfg.initState Ex.inits) {} (['q'] :: (src.words ++ Ex.argv)) = .ok hArgv ∧
+    hArgv.args.map (·.dest) = [.int 7, .flag true, .vec [1, 2]] := by
+  have hw := C07_sources_are_their_words Ex.cfg src Ex.argv hFC hE hEb hA
+  rw [spells_eval _ _ _ hw]
+  exact ⟨_, rfl, rfl⟩
+
+theorem hS : ∀ i d, UsedBy (usF ++ Ex.usE) i → Ex.cfg.args[i]? = some d → d.card.NoEnd := by
+  intro i d ⟨u, hu, hi⟩ hd
+  simp only [usF, Ex.usE, List.cons_append, List.nil_append, List.mem_cons, List.not_mem_nil, or_false] at hu
+  rcases hu with rfl | rfl | rfl <;> simp only at hi <;> subst hi
+  · have : d = Ex.lArg := by simpa [Ex.cfg] using hd.symm
+    subst this; trivial
+  · have : d = Ex.lArg := by simpa [Ex.cfg] using hd.symm
+    subst this; trivial
+  · have : d = Ex.fArg := by simpa [Ex.cfg] using hd.symm
+    subst this; trivial
+end Ex2
+
+/-- **Instance of `C07_valid_words_through_sources` and of `C07_same_as_the_words_on_argv`**, every
+    hypothesis discharged (file `-l 1` / `#` / `2`, environment value `-f`, argv `-n 7` against the one
+    command line `-l 1 2 -f -n 7`): the run with sources is accepted, and the list destination holds
+    the same value in both runs — `[1, 2]`. -/
+theorem C07_same_as_the_words_on_argv_instance :
+    ∃ hf hf', evalArguments Ex.cfg (Ex.cfg.initState Ex.inits) Ex2.src (['p'] :: Ex.argv) = .ok hf ∧
+      evalArguments Ex.cfg (Ex.cfg.initState Ex.inits) {} (['q'] :: (Ex2.src.words ++ Ex.argv)) = .ok hf' ∧
+      ∃ st st', hf.args[2]? = some st ∧ hf'.args[2]? = some st' ∧ st.dest = st'.dest ∧ st'.dest = .vec [1, 2] := by
+  obtain ⟨hArgv, eA, hdA⟩ := Ex2.onArgv
+  obtain ⟨hf, e, _⟩ := C07_valid_words_through_sources Ex.cfg Ex.inits Ex2.src ['p'] Ex.argv Ex2.hFC Ex2.hE Ex2.hEb
+    Ex2.hA ['q'] eA Ex2.hS
+  obtain ⟨st, st', h1, h2, h3⟩ := C07_same_as_the_words_on_argv Ex.cfg Ex.inits (by decide) Ex2.src ['p'] Ex.argv
+    Ex2.hFC Ex2.hE Ex2.hEb Ex2.hA e ['q'] eA (i := 2) (d := Ex.lArg) (v := .vec []) rfl rfl (fun _ => ⟨[], rfl⟩)
+  refine ⟨hf, hArgv, e, eA, st, st', h1, h2, h3, ?_⟩
+  have : (hArgv.args.map (·.dest))[2]? = some (.vec [1, 2]) := by rw [hdA]; rfl
+  rw [List.getElem?_map, h2] at this
+  simpa using this
+
+/-- … and the bridge on the same instance: the log of that accepted run is the fragment's uses -/
+example (hf : HState) (e : evalArguments Ex.cfg (Ex.cfg.initState Ex.inits) Ex2.src (['p'] :: Ex.argv) = .ok hf) :
+    hf.uses = Ex2.usF ++ Ex.usE ++ Ex.usA :=
+  (C07_fragment_is_what_the_run_spells Ex.cfg Ex.inits Ex2.src ['p'] Ex.argv Ex2.hFC.toFileSrcSpells Ex2.hE Ex2.hA e).1
+
+/-! ### the line-end condition is needed — a witness INSIDE `FileSpells` -/
+
+namespace LineEnd
+/-- `-v`: a list whose value is OPTIONAL and which takes multiple values
+    (`setValueMode( optional)` + `setTakesMultiValue()` on a container destination) -/
+def vArg : ArgDef := { key := ⟨some 'v', []⟩, kind := .vecInt, vmode := .optional, card := .unlimited, multi := true }
+def cfg : Cfg := { args := [vArg] }
+/-- the two file lines `-v` and `3` -/
+def src : Sources := { file := some [['-', 'v'], ['3']] }
+/-- what the two lines spell: a use of `-v` without value, then the FREE value 3 -/
+def usF : List Use := [⟨0, [], true⟩, ⟨0, ['3'], false⟩]
+
+/-- the file IS in the fragment (`FileSpells`): line 1 is `-v` without value, line 2 the free value 3
+    of the multi-value argument used last -/
+theorem hF : FileSrcSpells cfg none usF src.file := by
+  show FileSpells cfg none usF [['-', 'v'], ['3']]
+  have s1 : ArgString.splitString ['-', 'v'] = [['-', 'v']] := by decide
+  have s2 : ArgString.splitString ['3'] = [['3']] := by decide
+  refine FileSpells.line (us1 := [⟨0, [], true⟩]) (us2 := [⟨0, ['3'], false⟩]) (by unfold SkippedLine; decide) ?_ ?_
+  · rw [s1]
+    exact .shortOpt (d := vArg) (by decide) rfl rfl (Or.inl rfl) (.nil _)
+  · refine FileSpells.line (us1 := [⟨0, ['3'], false⟩]) (us2 := []) (by unfold SkippedLine; decide) ?_ (.nil _)
+    rw [s2]
+    exact .free (d := vArg) rfl rfl (Ex.plain '3' (by decide)) (.nil _)
+
+/-- the same words on ONE line spell something else: the value 3 given BY KEY -/
+theorem oneLine : Spells cfg none [⟨0, ['3'], true⟩] [['-', 'v'], ['3']] :=
+  .shortVal (d := vArg) (by decide) rfl (by decide) (Ex.plain '3' (by decide)) (.nil _)
+end LineEnd
+
+/-- **`BoundaryOk` cannot be dropped from `C07_sources_are_their_words`** (witness inside the
+    fragment: every other hypothesis holds).  The file `-v` / `3` for a multi-value argument with
+    optional value is a `FileSpells` file spelling `[-v without value, free value 3]`; no environment
+    value, no argv words; but the words of the file, `-v 3`, do NOT spell these uses as one command
+    line (they spell "3 by key", and the grammar is a function of the words) — and the line-end
+    condition is exactly what fails: line 1 ends in a value-less use of an optional-value argument and
+    the next line begins with a value word.  This is necessity for the SPELLING statement
+    (`C07_sources_are_their_words`), through which `C07_same_as_the_words_on_argv` and
+    `C07_valid_words_through_sources` are proved; on DESTINATIONS this witness shows no difference
+    (the model gives `[9, 3]` from `[9]` both ways: a list treats "3 by key" and "free value 3"
+    alike).  `C07_witness_line_end` below shows the English sentence failing on destinations, with a
+    LevelCounter; that witness lies outside `FileSpells` (its `-v` is not multi-value, so the line `3`
+    has no `Spells` derivation). -/
+theorem C07_witness_line_end_in_fragment :
+    FileSrcSpells LineEnd.cfg none LineEnd.usF LineEnd.src.file ∧
+    EnvSrcSpells LineEnd.cfg (lastAfter none LineEnd.usF) [] LineEnd.src.env ∧
+    Spells LineEnd.cfg (lastAfter none (LineEnd.usF ++ [])) [] [] ∧
+    BoundaryOk LineEnd.cfg [] [] ∧
+    ¬ Spells LineEnd.cfg none (LineEnd.usF ++ [] ++ []) (LineEnd.src.words ++ []) ∧
+    ¬ BoundaryOk LineEnd.cfg [⟨0, [], true⟩] (fileWords [['3']] ++ (LineEnd.src.envWordList ++ [])) := by
+  refine ⟨LineEnd.hF, rfl, .nil _, Or.inl (Or.inl rfl), ?_, ?_⟩
+  · intro h
+    have hw : LineEnd.src.words ++ [] = [['-', 'v'], ['3']] := by decide
+    rw [hw] at h
+    have := SpellsPlus_functional (spells_sub_spellsPlus h) (spells_sub_spellsPlus LineEnd.oneLine)
+    revert this
+    decide
+  · intro h
+    have hw : fileWords [['3']] ++ (LineEnd.src.envWordList ++ []) = [['3']] := by decide
+    rw [hw] at h
+    rcases h with h | h
+    · rcases h with h | ⟨t, rest, h1, h2, h3⟩
+      · cases h
+      · cases h1
+    · exact h ⟨0, [], true⟩ rfl LineEnd.vArg rfl rfl rfl
 
 /-! ### the recorded finding `sub-handler-source-value-counted` (handler trees) -/
 
